@@ -219,8 +219,20 @@ Definition h_client_hello (t : Z) (pl : list Z) : M summ :=
        mret (match v with None => [(-1, [])]
                         | Some (ty, ids, ext) => (ty, ext) :: summ_names ids end)
   else mret [(-3, pl)].
+(* ClientHello.parse 637-639 (since 6da5459; ServerHello.parse 948-950 has the same test):
+     if len(set(e.extType for e in self.extensions)) != len(self.extensions):
+         raise DecodeError("Duplicate extension in ClientHello")
+   building the set: one step and one cell per parsed extension *)
+Fixpoint has_dup (l : list Z) : bool :=
+  match l with
+  | [] => false
+  | x :: tl => existsb (Z.eqb x) tl || has_dup tl
+  end.
+Definition reject_duplicates {B} (exts : list (Z * B)) : M (list (Z * B)) :=
+  _ <~ mtick (zlen exts) (zlen exts) ;;
+  if has_dup (map fst exts) then merr DecodeError else mret exts.
 Definition parse_client_hello_exts (bs : list Z) : M (list (Z * summ)) :=
-  parse_ext_list_with h_client_hello bs.
+  exts <~ parse_ext_list_with h_client_hello bs ;; reject_duplicates exts.
 
 (* ---- certificate lists (messages.py) ----------------------------------------- *)
 Section Cert.
@@ -355,18 +367,24 @@ Definition IllegalParameterErr : exn := OtherExn 4.   (* TLSIllegalParameterExce
 Definition be3 (n : Z) : list Z := [(n / 65536) mod 256; (n / 256) mod 256; n mod 256].
 
 Section Decompress.
-  (* the decompressor: oracle taking the algorithm, the data and the output limit *)
-  Variable dec : list Z -> Z -> res (list Z).
+  (* the decompressor: oracle taking the data and the output limit; it returns what it
+     produced and whether it stopped cleanly (zlib: eof reached, no unconsumed_tail, no
+     unused_data) *)
+  Variable dec : list Z -> Z -> res (list Z * bool).
   Variable algo_ok : Z -> bool.                 (* zlib always; brotli/zstd if installed *)
   Variable cert_chk : list Z -> option exn.
 
-  (* _decompress: alloc = size of what the decompressor produced (it exists in
-     memory before the length comparison) *)
+  (* _decompress, zlib path since e070e0f:
+       dec = zlib.decompressobj(15); out = dec.decompress(data, expected_length + 1)
+       if dec.unconsumed_tail or not dec.eof or dec.unused_data: raise ValueError  (-> BadCertificateError)
+       if len(out) != expected_length: raise BadCertificateError
+     alloc = size of what the decompressor produced (it exists in memory before the tests) *)
   Definition decompress_cert (data : list Z) (expected : Z) : M (list Z) :=
-    match dec data expected with
+    match dec data (expected + 1) with
     | Err _ => (Err BadCertificateErr, 1, 0)
-    | Ok out => if zlen out =? expected then (Ok out, 1, zlen out)
-                else (Err BadCertificateErr, 1, zlen out)
+    | Ok (out, clean) =>
+      if clean && (zlen out =? expected) then (Ok out, 1, zlen out)
+      else (Err BadCertificateErr, 1, zlen out)
     end.
 
   (* parse(): 3-byte body length, algorithm(2), expected_length(3), compressed<3> *)
@@ -398,10 +416,10 @@ Fixpoint rle_expand (data : list Z) : list Z :=
   | c :: b :: tl => repeat b (Z.to_nat c) ++ rle_expand tl
   | _ => []
   end.
-Definition rle_dec_limited (data : list Z) (lim : Z) : res (list Z) :=
-  Ok (firstn (Z.to_nat lim) (rle_expand data)).
-Definition rle_dec_unlimited (data : list Z) (lim : Z) : res (list Z) :=
-  Ok (rle_expand data).
+Definition rle_dec_limited (data : list Z) (lim : Z) : res (list Z * bool) :=
+  Ok (firstn (Z.to_nat lim) (rle_expand data), zlen (rle_expand data) <=? lim).
+Definition rle_dec_unlimited (data : list Z) (lim : Z) : res (list Z * bool) :=
+  Ok (rle_expand data, true).
 
 (* ---- helpers for the correspondence check -------------------------------------- *)
 Definition bytes_ok (l : list Z) : Prop := Forall (fun b => 0 <= b < 256) l.
